@@ -33,6 +33,19 @@ CLAIMS = {
        "histories (every I/O method rotated through) and the model is compared with the implementation.",
   note="copy.deepcopy of the configuration is modelled as a value copy; I/O after closing the transport is outside the property.",
   ref="DESIGN.md section 4 C07"),
+ "C13": dict(
+  text="Theorem C13.run_spec: for EVERY machine class composition (any flat list of pre-connect, connector / console connector, "
+       "initialiser incl. PowerControl, shell, post-shell mixins and init hook), every balanced nesting history and every fault "
+       "assignment over all enter/exit/power_check/poweron/poweroff/hook/body points, the operational model of Machine.__enter__/"
+       "__exit__ (re-entrancy counter, ExitStack, guard) and PowerControl._init_machine produces exactly the declaratively specified "
+       "trace: steps begin in documented order up to the first fault, the body runs iff initialisation completed, exactly what was "
+       "begun is torn down in reverse, the last exception raised reaches the caller, the counter is 0 and a fresh entry initialises "
+       "again; corollaries power_off_exactly_once, power_off_position, conn_exit_after_power_off, refused_no_power, exc_iff_raised. "
+       "The same Spec is evaluated on dynamically composed REAL machine classes with instrumented mixins (15 000 cases per quick run; "
+       "thorough: every single fault point and every pair for compositions of <= 7 steps).",
+  note="contextlib.ExitStack / generator context-manager semantics are modelled (LIFO, continue past faults, last exception wins, no "
+       "suppression); mixins subclass their Initializer base directly; at most one connector/shell/PowerControl per class.",
+  ref="DESIGN.md section 4 C13"),
 }
 
 REASON_TODO = "check not built yet (work in progress; will be claimed once its Lean model, theorems and correspondence harness exist)"
